@@ -91,6 +91,40 @@ def run(ctx):
                 r.fail('supplied destination source', func=f.name, sig=f'copy source {C.val(v)[:50]}', loc=cpx.loc, msg='the bytes copied out are not the supplied fragment')
     r.require_min(1)
 
+    # ---------------- R03d the output buffer is only the target of the copy-out
+    r = ctx.rule('R03d', 'reconstruct: the caller\'s output buffer is written only by the final copy-out of the whole fragment; it is never handed to the coders',
+                 'the coders accumulate (XOR) into their destination and rely on a fresh zeroed buffer: rebuilding in place mixes in whatever the caller\'s buffer held')
+    misuse = []
+    for i in f.insts():
+        for ai, a in enumerate(i.ops):
+            if not (isinstance(a, str) and a in outs):
+                continue
+            if i.op in ('bitcast', 'getelementptr', 'icmp', 'phi', 'select', 'ptrtoint'):
+                continue                  # address computations and tests (NULL, alignment) read nothing and write nothing
+            if i.op == 'call' and i.callee.startswith('@llvm.memcpy') and ai == 0:
+                continue
+            if i.op == 'call' and (i.callee.startswith('@llvm.dbg') or i.callee in ('@syslog',)):
+                continue
+            if i.op == 'store' and ai == 1:
+                misuse.append((i, 'is written directly')); continue
+            if i.op == 'store' and ai == 0:
+                misuse.append((i, 'is stored into a fragment array / variable that outlives the copy-out')); continue
+            if i.op == 'call':
+                misuse.append((i, f'is passed to {i.callee}')); continue
+            misuse.append((i, f'is used by {i.op}'))
+    if misuse:
+        i, how = misuse[0]
+        r.fail('output buffer use', func=f.name, sig='out_fragment ' + how[:60], loc=i.loc,
+               msg=f'out_fragment {how}: the rebuilt fragment must be produced in the library\'s own zeroed buffer and copied out once, '
+                   'otherwise its bytes depend on what the caller\'s buffer held before')
+    else:
+        r.ok(f'out_fragment: {len(copies)} copy-out(s) of the whole fragment, no other use', func=f.name, loc=cp.loc)
+    for cpx in copies:
+        ln = C.val(strip_int_casts(f, cpx.ops[2]))
+        if ln != C.val(strip_int_casts(f, f.params[li][1])):
+            r.fail('copy-out length', func=f.name, sig=f'copy-out of {ln[:40]} bytes', loc=cpx.loc, msg=f'the copy-out writes {ln} bytes, not fragment_len')
+    r.require_min(1)
+
     # ---------------- R03c
     r = ctx.rule('R03c', 'rebuilt header: same serializer and arguments as encode, after the backend wrote the payload, before the copy-out',
                  'header, metadata checksum and payload checksum of a rebuilt fragment must equal what encode produced')
